@@ -58,7 +58,9 @@ def is_solution(cnf, assignment):
     return True
 
 def solve_cnf(cnf, *, debug=False):
-    cnf = copy(cnf)  # avoid modifying the input
+    # Avoid modifying the input. Repeated literals are removed from each clause:
+    # unit propagation counts the unassigned literals of a clause.
+    cnf = [list(dict.fromkeys(clause)) for clause in cnf]
     assigns = dict()
     level = 0
     proofs = dict()
